@@ -211,7 +211,7 @@ std::vector<std::pair<int,i64>> typed_n()
   {
   std::vector<std::pair<int,i64>> v;
   for( i64 n = -7; n <= 7; ++n ) v.push_back({T_I64, n});
-  for( i64 n : { 1ll<<15, 1ll<<31, (1ll<<31)+1, 64ll, 63ll, 10ll } ) { v.push_back({T_I64, n}); v.push_back({T_I64, -n}); }
+  for( i64 n : { 1ll<<15, 1ll<<31, (1ll<<31)+1, 64ll, 63ll, 10ll, (1ll<<32)+1, (1ll<<32)-1, (7ll<<32)+1, (1ll<<40)-1 } ) { v.push_back({T_I64, n}); v.push_back({T_I64, -n}); }
   for( i64 n : { 3ll, 128ll, 200ll, 255ll } ) v.push_back({T_U8, n});
   for( i64 n : { -128ll, -3ll, 127ll } ) v.push_back({T_I8, n});
   for( i64 n : { 9ll, 32768ll, 65535ll } ) v.push_back({T_U16, n});
@@ -220,7 +220,7 @@ std::vector<std::pair<int,i64>> typed_n()
   for( i64 n : { -(1ll<<31), (1ll<<31)-1, -11ll } ) v.push_back({T_I32, n});
   for( i64 n : { 6ll, (1ll<<32)+1, 1ll<<62 } ) v.push_back({T_U64, n});
   for( i64 n : { 3ll, 1ll<<40 } ) v.push_back({T_ULL, n});
-  for( i64 n : { -5ll, 12ll } ) v.push_back({T_LL, n});
+  for( i64 n : { -5ll, 12ll, (1ll<<32)+1, -((11ll<<32)-1) } ) v.push_back({T_LL, n});
   return v;
   }
 
